@@ -45,8 +45,15 @@ def custom_var2(rel):
 
 
 # custom variables requested in the same call share ONE dictionary
+def custom_var3(rel):
+    # reads a table column that is not a built-in quantity
+    return rel['phi_field'] ** 2 * np.sqrt(rel['gammadet'])
+
+
 CUSTOM_VARS = {'<custom>': ('custom', custom_var),
-               '<custom2>': ('custom2', custom_var2)}
+               '<custom2>': ('custom2', custom_var2),
+               '<custom3>': ('custom3', custom_var3)}
+VARS_X = ['<custom3>', 'gammadet']
 
 
 def custom_est(a):
@@ -78,6 +85,9 @@ def step_inputs(seed):
             steps.append({k: inp[k] for k in
                           ('gammadown3', 'Kdown3', 'alpha', 'betaup3',
                            'Tdown4')})
+            # a simulation field aurel has no name for
+            steps[-1]['phi_field'] = 0.3 * np.sin(X + 2 * Y) * np.cos(Z) \
+                + 0.1 * t
         _STEPS[seed] = (steps, param)
     return _STEPS[seed]
 
@@ -291,6 +301,9 @@ def main(tier):
                       parts[0], 'all-estimators'))
     for part in ordered_partitions(VARS_C, 3):
         tasks.append((seed, 3, (2, 0, 1), 'it', part, 'components'))
+    # a custom variable built from a column aurel has no name for
+    for part in ordered_partitions(VARS_X, 2):
+        tasks.append((seed, 3, (2, 1, 0), 'it', part, 'foreign-column'))
     # requested names that CONTAIN the name of an input column ('alpha' in
     # 'DDalpha', 'gammadown3' in 'gammadown3_bssnok', 'Kdown3'...)
     for part in ordered_partitions(VARS_N, 3):
@@ -309,7 +322,8 @@ def main(tier):
                                     [list(x) for x in part], extra]})
         if r['final'] is not None and extra != 'all-estimators':
             groups.setdefault((nsteps, tkey, extra if extra in (
-                'components', 'name-collision') else None),
+                'components', 'name-collision', 'foreign-column')
+                else None),
                               []).append((r['final'], t))
     # (v) every split (and every row order) gives the same final table
     for (nsteps, tkey, _), lst in groups.items():
